@@ -180,6 +180,9 @@ def forwarder_pipeline(ctx, rid):
     loop = loops[0]
     HN, HV = [x.id for x in loop.ast.target.elts]
     in_loop = [s_ for s_ in gc.stmts(ast.Assign) if len(s_.ast.targets) == 1 and isinstance(s_.ast.targets[0], ast.Name) and any(a is loop.ast for a in fc.module.ancestors(s_.ast))]
+    # (only a local that is read outside the header loop outlives the iteration)
+    read_outside = set(n.id for n in ast.walk(fc.node) if isinstance(n, ast.Name) and isinstance(n.ctx, ast.Load) and not any(a is loop.ast for a in fc.module.ancestors(n)))
+    in_loop = [s_ for s_ in in_loop if s_.ast.targets[0].id in read_outside]
     ENV = None
     for r_ in gc.stmts(ast.Return):
         if isinstance(r_.ast.value, ast.Tuple) and len(r_.ast.value.elts) == 2 and isinstance(r_.ast.value.elts[1], ast.Name):
